@@ -287,10 +287,61 @@ def _judge_nanobind(s, line):
     return []
 
 
+SLICE_ELEMS = ["u8", "i8", "u16", "i16", "u32", "i32", "u64", "i64", "usize", "isize", "f32", "f64", "bool", "DiplomatByte", "DiplomatChar"]
+
+
+def dart_slice_returns(rep, wd):
+    """Dart: a borrowed primitive slice comes back as a zero-copy typed-list view for most element types; the helper struct's _toDart
+    must then attach the lifetime edges it is handed (a view whose owner is collected is a use-after-free), and the method must hand them over"""
+    ms = "".join("        pub fn s%d<'p>(&'p self) -> &'p [%s] { unimplemented!() }\n" % (k, t) for k, t in enumerate(SLICE_ELEMS))
+    ms += "        pub fn st<'p>(&'p self) -> &'p str { unimplemented!() }\n        pub fn s16<'p>(&'p self) -> &'p DiplomatStr16 { unimplemented!() }\n"
+    src = "#[diplomat::bridge]\nmod ffi {\n    #[diplomat::opaque]\n    pub struct Sl(u8);\n    impl Sl {\n%s    }\n}\n" % ms
+    d = os.path.join(wd, "dart_slices")
+    os.makedirs(d, exist_ok=True)
+    open(os.path.join(d, "lib.rs"), "w").write(src)
+    p = run_tool("dart", os.path.join(d, "lib.rs"), os.path.join(d, "out"))
+    if p.returncode != 0:
+        raise MachineryError("dart backend refused the slice-return module: " + p.stderr[-800:])
+    sl = open(os.path.join(d, "out", "Sl.g.dart")).read()
+    lib = open(os.path.join(d, "out", "lib.g.dart")).read()
+    helpers = {}
+    for m in re.finditer(r"final class (_Slice\w+) extends ffi\.Struct \{(.*?)\n\}\n", lib, re.S):
+        tm = re.search(r" _toDart\(core\.List<Object> lifetimeEdges[^)]*\) \{(.*?)\n  \}", m.group(2), re.S)
+        if tm:
+            helpers[m.group(1)] = tm.group(1)
+    judged = 0
+    for k in list(range(len(SLICE_ELEMS))) + ["t", "16"]:
+        name = "s%s" % k
+        mm = re.search(r"\n  [\w<>.? ]+ %s\(\) \{(.*?)\n  \}" % name, sl, re.S)
+        if not mm:
+            raise MachineryError("UNDECIDED: dart method %s not found" % name)
+        body = mm.group(1)
+        em = re.search(r"core\.List<Object> (\w+)Edges = \[(.*?)\];", body)
+        call = re.search(r"return result\._toDart\((\w+)Edges\)", body)
+        elem = SLICE_ELEMS[k] if isinstance(k, int) else {"t": "str", "16": "DiplomatStr16"}[k]
+        judged += 1
+        if not em or "this" not in [x.strip() for x in em.group(2).split(",")] or not call or call.group(1) != em.group(1):
+            rep.violation("C04b|dart|slice-return|edges-not-passed|%s" % elem, {"method": body}, "dart: a method returning &'p [%s] borrowed from self does not pass [this] to the slice conversion" % elem)
+            continue
+        native = re.search(r"external (_Slice\w+) _Sl_%s\(" % name, sl)
+        if not native or native.group(1) not in helpers:
+            raise MachineryError("UNDECIDED: dart helper struct of %s not found" % name)
+        hb = helpers[native.group(1)]
+        view = re.search(r"final r = _data\.asTypedList\(_length\);", hb) is not None
+        copy = re.search(r"final r = .*(convert\(|toList\(|fromCharCodes\(|map\()", hb) is not None
+        if view == copy:
+            raise MachineryError("UNDECIDED: cannot tell whether %s._toDart returns a view or a copy: %s" % (native.group(1), hb[:300]))
+        if view and "_nopFree.attach(r, lifetimeEdges)" not in hb:
+            rep.violation("C04b|dart|slice-return|view-drops-edges|%s" % native.group(1), {"helper": native.group(1), "toDart": hb, "element": elem},
+                          "dart: %s._toDart returns a zero-copy view of Rust memory but does not keep the lifetime edges alive (element type %s)" % (native.group(1), elem))
+    return judged
+
+
 def backend_half(rep, tier):
     hirx = os.path.join(build_harness("hirx"), "hirx")
     build_tool()
     wd = workdir("C04b")
+    dart_slices = dart_slice_returns(rep, wd)
     allsigs = _filter_accepted(_sig_sets(tier), hirx, wd)
     groups = [(["js", "dart", "nanobind"], allsigs),
               (["kotlin"], [s for s in allsigs if not any(f.name in EXCLUDED_FOR["kotlin"] for f, _ in s.params)])]
@@ -298,7 +349,7 @@ def backend_half(rep, tier):
     for backends, sigs in groups:
         _run_group(rep, wd, sigs, backends, totals)
     shutil.rmtree(wd, ignore_errors=True)
-    return {"methods": len(allsigs), "judgements": totals["judged"], "nontrivial": totals["nontrivial"], "shards": totals["shards"], "backends": BACKENDS,
+    return {"methods": len(allsigs), "dart_slice_return_judgements": dart_slices, "judgements": totals["judged"] + dart_slices, "nontrivial": totals["nontrivial"], "shards": totals["shards"], "backends": BACKENDS,
             "excluded_param_forms": sorted(EXCLUDED_PARAMS), "excluded_for_backend": {k: sorted(v) for k, v in EXCLUDED_FOR.items()},
             "samples": [{"backend_half_sig": s.render_method("m"), "impl": s.impl_header(),
                          "expected": {k: sorted(map(str, v)) for k, v in s.expected_edges().items()}} for s in allsigs[5:400:150]]}
